@@ -26,7 +26,7 @@ PROPS["C18"] = {
     "units": [
         {"test": "^TestC18Seq$", "quick": {"checks": 300, "shards": 2}, "thorough": {"checks": 5000, "shards": 4}},
         {"test": "^TestC18BigPut$", "quick": {"checks": 60}, "thorough": {"checks": 600, "shards": 2}},
-        {"test": "^TestC18EdgeKeys$", "quick": {"checks": 80, "shards": 2}, "thorough": {"checks": 3000, "shards": 4}},
+        {"test": "^TestC18EdgeKeys$", "quick": {"checks": 150, "shards": 4}, "thorough": {"checks": 3000, "shards": 4}},
         {"test": "^TestC18Crash$", "quick": {"checks": 6, "shards": 2, "procs": 8}, "thorough": {"checks": 150, "shards": 4, "procs": 4}},
         {"test": "^TestC18Conc$", "quick": {"checks": 400, "shards": 2}, "thorough": {"checks": 10000, "shards": 4}},
         {"test": "^TestC18ConcCrash$", "quick": {"checks": 60, "shards": 4}, "thorough": {"checks": 1500, "shards": 8}},
@@ -84,7 +84,7 @@ PROPS["C02"] = {
     "required_classes": ["case_with_restart", "case_crossing_indirection", "case_via_rpc", "case_failed_op_then_more"],
     "units": [
         {"test": "^TestRegressC02$", "norapid": True, "quick": {"shards": 1}, "thorough": {"shards": 1}},
-        {"test": "^TestC02Seq$", "quick": {"checks": 120, "shards": 8}, "thorough": {"checks": 1500, "shards": 12, "steps": 80}},
+        {"test": "^TestC02Seq$", "quick": {"checks": 150, "shards": 12}, "thorough": {"checks": 1500, "shards": 12, "steps": 80}},
         {"test": "^TestC02Full$", "quick": {"checks": 40, "shards": 4, "steps": 40}, "thorough": {"checks": 500, "shards": 8, "steps": 60}},
     ],
 }
@@ -172,7 +172,7 @@ PROPS["C08"] = {
     "assumptions": COMMON_ASSUMPTIONS,
     "required_classes": ["program_with_a_working_set_larger_than_the_inode_cache", "stale_sweeps_of_a_reused_inode_number", "crash_recoveries", "inode_exhaustion_files_created", "handles_seen_while_the_disk_was_cut_off", "cases_where_the_new_directory_reused_the_inode_number"],
     "units": [
-        {"test": "^TestC08BigSet$", "quick": {"checks": 10, "shards": 4}, "thorough": {"checks": 300, "shards": 8}},
+        {"test": "^TestC08BigSet$", "quick": {"checks": 12, "shards": 8}, "thorough": {"checks": 300, "shards": 8}},
         {"test": "^TestRegressC08$", "norapid": True, "quick": {"shards": 1}, "thorough": {"shards": 1}},
         {"test": "^TestC08Handles$", "quick": {"checks": 100, "shards": 8, "steps": 40}, "thorough": {"checks": 1500, "shards": 12, "steps": 60}},
         {"test": "^TestC08Exhaust$", "norapid": True, "quick": {"shards": 1}, "thorough": {"shards": 1}},
@@ -207,8 +207,8 @@ PROPS["C13"] = {
     "required_classes": ["enumerations_of_a_directory_reaching_the_double_indirect_range", "directory_of_500_or_more_long_names", "session_of_3_or_more_pages", "session_with_mutations_between_pages", "session_readdirplus", "resumed_from_an_earlier_cookie", "enumerations_during_concurrent_updates"],
     "units": [
         {"test": "^TestRegressC13$", "norapid": True, "quick": {"shards": 1}, "thorough": {"shards": 1}},
-        {"test": "^TestC13Paging$", "quick": {"checks": 80, "shards": 8}, "thorough": {"checks": 1500, "shards": 12}},
-        {"test": "^TestC13Concurrent$", "quick": {"checks": 60, "shards": 4}, "thorough": {"checks": 1000, "shards": 8}},
+        {"test": "^TestC13Paging$", "quick": {"checks": 150, "shards": 8}, "thorough": {"checks": 1500, "shards": 12}},
+        {"test": "^TestC13Concurrent$", "quick": {"checks": 100, "shards": 6}, "thorough": {"checks": 1000, "shards": 8}},
         {"test": "^TestC13Huge$", "quick": {"checks": 2, "shards": 3}, "thorough": {"checks": 20, "shards": 8}},
     ],
 }
@@ -223,8 +223,8 @@ PROPS["C17"] = {
     "required_classes": ["read_replies_verified_in_a_crash_image", "conc_with_a_client_held_at_a_disk_access", "seq_with_rejected_write_or_setattr", "seq_with_restart", "conc_with_overlap", "crash_images"],
     "units": [
         {"test": "^TestRegressC17$", "norapid": True, "quick": {"shards": 1}, "thorough": {"shards": 1}},
-        {"test": "^TestC17Seq$", "oom_is_violation": True, "quick": {"checks": 60, "shards": 8}, "thorough": {"checks": 1500, "shards": 12}},
-        {"test": "^TestC17Conc$", "quick": {"checks": 100, "shards": 4}, "thorough": {"checks": 2500, "shards": 8}},
+        {"test": "^TestC17Seq$", "oom_is_violation": True, "quick": {"checks": 100, "shards": 8}, "thorough": {"checks": 1500, "shards": 12}},
+        {"test": "^TestC17Conc$", "quick": {"checks": 150, "shards": 6}, "thorough": {"checks": 2500, "shards": 8}},
         {"test": "^TestC17ConcCrash$", "quick": {"checks": 30, "shards": 4}, "thorough": {"checks": 800, "shards": 8}},
         {"test": "^TestC17Crash$", "quick": {"checks": 8, "shards": 2, "procs": 4}, "thorough": {"checks": 150, "shards": 4, "procs": 4, "timeout": 7200}},
     ],
@@ -282,11 +282,11 @@ PROPS["C16"] = {
     "assumptions": COMMON_ASSUMPTIONS,
     "required_classes": ["truncated_requests_offered_to_the_dispatch_table", "golden_vectors", "procedure_numbers_checked", "type_WRITE3args", "type_READDIRPLUS3res", "type_Mountres3"],
     "units": [
-        {"test": "^TestC16RoundTrip$", "quick": {"checks": 6000, "shards": 4}, "thorough": {"checks": 100000, "shards": 8}},
+        {"test": "^TestC16RoundTrip$", "quick": {"checks": 15000, "shards": 8}, "thorough": {"checks": 100000, "shards": 8}},
         {"test": "^TestC16Bytes$", "quick": {"checks": 20000, "shards": 4}, "thorough": {"checks": 250000, "shards": 8}},
         {"test": "^TestC16Golden$", "norapid": True, "quick": {"shards": 1}},
         {"test": "^TestC16Dispatch$", "norapid": True, "quick": {"shards": 1}},
-        {"test": "^TestC16Truncated$", "quick": {"checks": 1500, "shards": 4}, "thorough": {"checks": 40000, "shards": 8}},
+        {"test": "^TestC16Truncated$", "quick": {"checks": 4000, "shards": 8}, "thorough": {"checks": 40000, "shards": 8}},
         {"test": "^FuzzC16Decode$", "fuzz": True, "quick": {"shards": 1}, "thorough": {"shards": 1, "fuzztime": 300, "procs": 16, "timeout": 900}},
     ],
 }
